@@ -62,6 +62,7 @@ class FnSpec:
         self.loops = kw.get('loops') or {}
         self.result = kw.get('result')          # declared kind of the result (for havoc at call sites)
         self.pure = kw.get('pure', False)
+        self.reads = kw.get('reads')            # read set of a pure method (its result is a function of it)
         self.self_cls = kw.get('self_cls')      # verify the body for these receiver classes (default: defining class)
         self.note = kw.get('note', '')
         self.public = kw.get('public', False)
